@@ -344,6 +344,8 @@ pub fn decode_in_child(codec: u8, stack: usize, spec: &str) -> Obs {
 struct Ctx {
     out: Out,
     child_budget: u64,
+    /// recent inputs that are exactly one complete frame, per codec (for the concatenation oracle)
+    recent: [Vec<Vec<u8>>; 2],
 }
 
 /// an array header `*<n digits or more>` somewhere in the input: codec 1 may pre-allocate
@@ -425,6 +427,50 @@ fn check_decode(cx: &mut Ctx, codec: u8, input: &[u8], src: &str) -> Option<Obs>
     if dangerous {
         return Some(o);
     }
+    // ---- the RESP grammar, stated on the bytes (independent of the model)
+    if let Some(v) = &o.val {
+        if v.lines_have(&|b| find(b, b"\r\n")) {
+            cx.out.violation(&format!("C15:grammar:crlf-inside-line:codec{}", codec), "a decoded simple string / error contains CR LF: the line did not end at the first CR LF", replay("line text without CR LF"));
+        }
+    }
+    if !input.is_empty() && b"+-:".contains(&input[0]) {
+        let fc = first_crlf(&input[1..]);
+        if let (Kind::Ok, Some(p)) = (&o.kind, fc) {
+            if o.consumed != p + 3 {
+                cx.out.violation(&format!("C15:grammar:line-consumed:codec{}", codec), &format!("a line frame consumed {} bytes, its first CR LF ends at {}", o.consumed, p + 3), replay("consumed = index of the first CR LF + 2"));
+            }
+        }
+        if o.kind == Kind::Ok && fc.is_none() {
+            cx.out.violation(&format!("C15:grammar:line-without-crlf:codec{}", codec), "a line frame was decoded although no CR LF has arrived", replay("incomplete"));
+        }
+        if o.kind == Kind::Incomplete && fc.is_some() {
+            cx.out.violation(&format!("C15:grammar:complete-line-incomplete:codec{}", codec), "a + / - / : frame whose CR LF has arrived is reported incomplete (the connection stalls)", replay("a value or a protocol error"));
+        }
+    }
+    // frames do not overlap: two complete frames, concatenated, decode one by one
+    if o.kind == Kind::Ok && o.consumed == input.len() && input.len() <= 64 {
+        let ci = (codec - 1) as usize;
+        let others: Vec<Vec<u8>> = cx.recent[ci].iter().rev().take(3).cloned().collect();
+        for b in others {
+            for (x, y) in [(input.to_vec(), b.clone()), (b.clone(), input.to_vec())] {
+                let alone_x = decode_here(codec, &x);
+                let alone_y = decode_here(codec, &y);
+                let mut cat = x.clone();
+                cat.extend_from_slice(&y);
+                let first = decode_here(codec, &cat);
+                let ok1 = first.text == alone_x.text;
+                let ok2 = ok1 && first.consumed <= cat.len() && decode_here(codec, &cat[first.consumed..]).text == alone_y.text;
+                if !ok1 || !ok2 {
+                    cx.out.violation(&format!("C15:frames-overlap:codec{}", codec), "two complete frames, concatenated, do not decode to the first frame with its own length followed by the second",
+                        json!({"first": hex(&x), "first_alone": alone_x.text, "second": hex(&y), "second_alone": alone_y.text, "concatenated": hex(&cat), "decoded": first.text}));
+                }
+            }
+        }
+        if cx.recent[ci].len() >= 8 {
+            cx.recent[ci].remove(0);
+        }
+        cx.recent[ci].push(input.to_vec());
+    }
     // exact occupancy: the first `consumed` bytes alone decode to the same thing
     if o.kind == Kind::Ok && o.consumed < input.len() {
         let p = decode_here(codec, &input[..o.consumed]);
@@ -462,6 +508,102 @@ fn check_decode(cx: &mut Ctx, codec: u8, input: &[u8], src: &str) -> Option<Obs>
         }
     }
     Some(o)
+}
+
+fn first_crlf(b: &[u8]) -> Option<usize> {
+    b.windows(2).position(|w| w == b"\r\n")
+}
+
+fn lossy(v: &V) -> V {
+    let f = |b: &Vec<u8>| String::from_utf8_lossy(b).as_bytes().to_vec();
+    match v {
+        V::S(b) => V::S(f(b)),
+        V::E(b) => V::E(f(b)),
+        V::A(a) => V::A(a.iter().map(lossy).collect()),
+        v => v.clone(),
+    }
+}
+
+/// both decoders on the same input + the agreement oracle: same value (up to the lossy UTF-8
+/// conversion of line texts) and consumed count, both incomplete, or the same error class —
+/// except where RespCodec rejects a (negative array) length
+fn check_both(cx: &mut Ctx, input: &[u8], src: &str) {
+    let a = check_decode(cx, 1, input, src);
+    let b = check_decode(cx, 2, input, src);
+    let (a, b) = match (a, b) {
+        (Some(a), Some(b)) => (a, b),
+        _ => return,
+    };
+    if a.val.is_none() && a.kind == Kind::Ok {
+        return; // ran in a child process: only the text is known
+    }
+    if matches!(a.kind, Kind::Crash | Kind::Abort) || matches!(b.kind, Kind::Crash | Kind::Abort) {
+        return; // reported by the crash oracle
+    }
+    if a.text == "err:bad-len" {
+        cx.out.count("agree:excluded:codec1-bad-len");
+        return;
+    }
+    let same = match (&a.kind, &b.kind) {
+        (Kind::Ok, Kind::Ok) => a.consumed == b.consumed && a.val.as_ref().map(lossy) == b.val,
+        (Kind::Incomplete, Kind::Incomplete) => true,
+        (Kind::Error, Kind::Error) => a.text == b.text,
+        _ => false,
+    };
+    if !same {
+        let class = format!("{}-vs-{}", a.text.split(' ').next().unwrap_or(""), b.text.split(' ').next().unwrap_or(""));
+        cx.out.violation(&format!("C15:decoders-disagree:{}", class.replace("err:", "err-")), "RespCodec and RespParser decode the same bytes differently",
+            json!({"bytes": String::from_utf8_lossy(input), "hex": hex(input), "codec1": a.text, "codec2": b.text, "source": src}));
+    }
+}
+
+fn count_cr_patterns(cx: &mut Ctx, s: &[u8]) {
+    let n = s.len();
+    for i in 0..n {
+        if s[i] == b'\r' && (i + 1 >= n || s[i + 1] != b'\n') {
+            cx.out.count(if i + 1 >= n { "crpat:bare-cr-at-end" } else if s[i + 1] == b'\r' { "crpat:cr-cr" } else { "crpat:bare-cr-inside" });
+        }
+        if s[i] == b'\n' && (i == 0 || s[i - 1] != b'\r') {
+            cx.out.count(if i + 1 >= n { "crpat:bare-lf-at-end" } else { "crpat:bare-lf-inside" });
+        }
+    }
+    if find(s, b"\r\r\r\n") {
+        cx.out.count("crpat:cr-cr-cr-lf");
+    } else if find(s, b"\r\r\n") {
+        cx.out.count("crpat:cr-cr-lf");
+    }
+}
+
+/// every type byte, a line built from up to three pieces out of text / bare CR / bare LF / CR CR LF /
+/// CR CR CR LF / CR LF, followed by nothing, another frame, or a CR LF
+fn cr_patterns(cx: &mut Ctx) {
+    let pieces: [&[u8]; 8] = [b"a", b"1", b"\r", b"\n", b"\r\r\n", b"\r\r\r\n", b"\r\n", b"\r\n\r"];
+    let tails: [&[u8]; 3] = [b"", b":1\r\n", b"\r\n"];
+    let mut bodies: Vec<Vec<u8>> = vec![vec![]];
+    let mut layer: Vec<Vec<u8>> = vec![vec![]];
+    for _ in 0..3 {
+        let mut next = Vec::new();
+        for b in &layer {
+            for p in pieces {
+                let mut x = b.clone();
+                x.extend_from_slice(p);
+                next.push(x);
+            }
+        }
+        bodies.extend(next.iter().cloned());
+        layer = next;
+    }
+    for t in [b'+', b'-', b':', b'$', b'*'] {
+        for b in &bodies {
+            for tail in tails {
+                let mut s = vec![t];
+                s.extend_from_slice(b);
+                s.extend_from_slice(tail);
+                count_cr_patterns(cx, &s);
+                check_both(cx, &s, "cr-patterns");
+            }
+        }
+    }
 }
 
 /// the buffer loop around the real decoder
@@ -630,8 +772,7 @@ fn exhaustive(cx: &mut Ctx, maxlen: usize) {
                 s[i] = ALPHABET[(idx % k) as usize];
                 idx /= k;
             }
-            check_decode(cx, 1, &s, "exhaustive");
-            check_decode(cx, 2, &s, "exhaustive");
+            check_both(cx, &s, "exhaustive");
         }
     }
 }
@@ -663,8 +804,7 @@ fn header_exhaustive(cx: &mut Ctx, fieldlen: usize) {
                 let mut s = vec![t];
                 s.extend_from_slice(&f);
                 s.extend_from_slice(tail);
-                check_decode(cx, 1, &s, "header-exhaustive");
-                check_decode(cx, 2, &s, "header-exhaustive");
+                check_both(cx, &s, "header-exhaustive");
             }
         }
     }
@@ -780,7 +920,7 @@ fn mutate(rng: &mut Rng, valid: &[u8], allow_huge: bool) -> Vec<u8> {
         4 => {
             // lone CR / lone LF / CRCR inserted somewhere
             let p = rng.below(v.len() as u64 + 1) as usize;
-            let ins: &[u8] = *rng.pick(&[&b"\r"[..], b"\n", b"\r\r", b"\n\r"]);
+            let ins: &[u8] = *rng.pick(&[&b"\r"[..], b"\n", b"\r\r", b"\n\r", b"\r\r\n", b"\r\r\r\n"]);
             v.splice(p..p, ins.iter().copied());
         }
         5 => {
@@ -861,6 +1001,10 @@ fn fixed_corpus(cx: &mut Ctx) {
         (1, b"*2\r\n$3\r\nGET\r\n$1\r\nk\r\n"), (2, b"*2\r\n$3\r\nGET\r\n$1\r\nk\r\n"),
     ] {
         check_decode(cx, codec, s, "corpus");
+    }
+    // a CR LF directly preceded by a bare CR (seeded change C15-find-crlf-skips-two)
+    for s in [&b"+a\r\r\n"[..], b"+a\r\r\n:1\r\n", b":7\r\r\n", b"-e\r\r\r\n", b"$0\r\n\r\n", b"$0\r\n\r\n:1\r\n"] {
+        check_both(cx, s, "corpus");
     }
     // unbounded recursion: 20000 nested arrays on a 256 KiB stack (model: at most stack/16 frames),
     // and a depth that certainly fits
@@ -943,8 +1087,7 @@ fn encoder3(cx: &mut Ctx) {
         cx.out.op(format!("E3 {}", v.show()), hex(&span));
         cx.out.case(&format!("E3|{}", v.show()), true);
         cx.out.count("encoder3-replies");
-        check_decode(cx, 1, &span, "encoder3");
-        check_decode(cx, 2, &span, "encoder3");
+        check_both(cx, &span, "encoder3");
         off += o.consumed;
         n += 1;
     }
@@ -963,13 +1106,14 @@ fn encoder3(cx: &mut Ctx) {
 fn run_inner(a: &Args) {
     install_silent_panic_hook();
     let quick = a.tier != "thorough";
-    let mut cx = Ctx { out: Out::new(&a.out), child_budget: if quick { 60 } else { 600 } };
+    let mut cx = Ctx { out: Out::new(&a.out), child_budget: if quick { 60 } else { 600 }, recent: [Vec::new(), Vec::new()] };
     let mut rng = Rng::new(a.seed);
     cx.out.op("Z".into(), format!("elemsize={}", std::mem::size_of::<RespValueZeroCopy>()));
     fixed_corpus(&mut cx);
     primitives(&mut cx, &mut rng, if quick { 300 } else { 5000 });
     exhaustive(&mut cx, if quick { 5 } else { 6 });
     header_exhaustive(&mut cx, if quick { 3 } else { 4 });
+    cr_patterns(&mut cx);
 
     encoder3(&mut cx);
     // round trips of all small values
@@ -1008,8 +1152,7 @@ fn run_inner(a: &Args) {
                 if rng.chance(1, 4) {
                     m = mutate(&mut rng, &m, false);
                 }
-                check_decode(&mut cx, 1, &m, "mutated");
-                check_decode(&mut cx, 2, &m, "mutated");
+                check_both(&mut cx, &m, "mutated");
                 if rng.chance(1, 3) && m.len() >= 2 {
                     let k = rng.range(1, 3) as usize;
                     let mut cuts: Vec<usize> = (0..k).map(|_| rng.range(1, m.len() as u64 - 1) as usize).collect();
@@ -1023,8 +1166,7 @@ fn run_inner(a: &Args) {
                 // random bytes, biased to the grammar alphabet
                 let len = rng.below(24);
                 let s: Vec<u8> = (0..len).map(|_| if rng.chance(4, 5) { *rng.pick(ALPHABET) } else { rng.below(256) as u8 }).collect();
-                check_decode(&mut cx, 1, &s, "random-bytes");
-                check_decode(&mut cx, 2, &s, "random-bytes");
+                check_both(&mut cx, &s, "random-bytes");
             }
             4..=5 => {
                 let v = rand_value(&mut rng, 3);
@@ -1065,8 +1207,7 @@ fn run_inner(a: &Args) {
                     let n = rng.below(s.len() as u64) as usize;
                     s.truncate(n);
                 }
-                check_decode(&mut cx, 1, &s, "nested");
-                check_decode(&mut cx, 2, &s, "nested");
+                check_both(&mut cx, &s, "nested");
             }
         }
     }
